@@ -233,7 +233,9 @@ impl Workload for PersistWorkload {
             Err(e) => viol = v("persist:file-unreadable", e),
             Ok(i) => {
                 if i.k_bits != want_bits {
-                    viol = v("persist:wrong-width-recorded", format!("k={} file records k_bits={}", c.k, i.k_bits));
+                    // which width a file records is not a result: C09 demands that no RESULT depends
+                    // on the width, and the operation comparisons below decide that
+                    probe("c09_file_records_another_width_than_k_suggests");
                 }
                 if c.k > 31 && i.table.rows.keys().all(|x| *x <= u64::MAX as u128) {
                     probe("c09_128bit_file_whose_kmers_all_fit_64");
@@ -318,7 +320,9 @@ impl Workload for PersistWorkload {
                     }
                     let r = ex.run(args)?;
                     viol = status(&a, &r);
-                    if viol.is_none() && a.ok() && a.stdout != r.stdout {
+                    // (meta lines may carry a file name or a command line, which differ between the sides)
+                    let body = |o: &[u8]| String::from_utf8_lossy(o).lines().filter(|l| !l.starts_with("##")).map(|l| l.to_string()).collect::<Vec<_>>();
+                    if viol.is_none() && a.ok() && body(&a.stdout) != body(&r.stdout) {
                         viol = differs("map output");
                     }
                 }
@@ -416,11 +420,14 @@ impl Workload for PersistWorkload {
                                         Some(p) => x.table.rows.len() == y.table.rows.len() && x.table.rows.iter().all(|(kk, row)| y.table.rows.get(kk).map(|r2| p.iter().map(|j| r2[*j]).collect::<Vec<u8>>() == *row).unwrap_or(false)),
                                         None => false,
                                     };
-                                    if !ok || x.k_bits != y.k_bits {
+                                    if x.k_bits != y.k_bits {
+                                        probe("c09_merge_orders_record_different_widths");
+                                    }
+                                    if !ok {
                                         viol = v("persist:merge-order-dependent", format!("merge f g and merge g f disagree (k={} fits64={}; k_bits {} vs {})", c.k, c.fits64, x.k_bits, y.k_bits));
                                     }
                                     if x.k_bits != want_bits {
-                                        viol = v("persist:wrong-width-recorded", format!("merged file records k_bits={} for k={}", x.k_bits, c.k));
+                                        probe("c09_file_records_another_width_than_k_suggests");
                                     }
                                 }
                                 _ => viol = v("persist:file-unreadable", "merged file unreadable".into()),
@@ -478,7 +485,8 @@ impl Workload for PersistWorkload {
                     if viol.is_none() && a.ok() {
                         if *with_ref {
                             for suf in ["_snps.fas", "_snps.vcf", "_pseudo_genomes.fas", "_indels.vcf"] {
-                                if dir.read(&format!("lo_a{suf}")) != dir.read(&format!("lo_b{suf}")) {
+                                let body = |d: Option<Vec<u8>>| d.map(|d| String::from_utf8_lossy(&d).lines().filter(|l| !l.starts_with("##")).map(|l| l.to_string()).collect::<Vec<_>>());
+                                if body(dir.read(&format!("lo_a{suf}"))) != body(dir.read(&format!("lo_b{suf}"))) {
                                     viol = differs(&format!("lo -r output {suf}"));
                                     break;
                                 }
